@@ -20,6 +20,9 @@ abbrev Addr := BitVec 64
 
 /-- What `osReadSymbols` extracts from the executable file. -/
 structure File (N : Type) where
+  /-- `os.Executable()` gave a path and `os.Open` of it succeeded (symbols_elf.go:14-25 `osReadSymbolsFromExeFile`);
+      false: the process' own executable file is gone / not accessible — the error is returned, nothing else is tried -/
+  openOk : Bool := true
   /-- `elf.NewFile` succeeded (symbols_elf.go:31) -/
   elfOk : Bool
   /-- address of the first section called `.text` (symbols_elf.go:37), `none` = no such section -/
@@ -32,7 +35,7 @@ structure File (N : Type) where
   /-- `exe.Symbols()` (symbols_elf.go:61): `none` = no symbol table (stripped) or error; else (name, st_value) in file order -/
   symtab : Option (List (N × Addr))
 
-inductive Err | elf | noText | noPcln | pclnData | noFunc | noVar
+inductive Err | open | elf | noText | noPcln | pclnData | noFunc | noVar
   deriving DecidableEq, Repr
 
 /-- `gosym.Table` as goom fills it: `Funcs` from the pclntab, `Syms` from the ELF symbol table. -/
@@ -42,6 +45,7 @@ structure Table (N : Type) where
 
 /-- symbols_elf.go:30 `osReadSymbols` -/
 def load {N : Type} (f : File N) : Except Err (Table N) :=
+  if !f.openOk then .error .open else        -- symbols_elf.go:16,22 return err
   if !f.elfOk then .error .elf else
   match f.text with
   | none => .error .noText
@@ -148,6 +152,21 @@ def run {N : Type} [DecidableEq N] (env : Env N) : St N → List (Op N) → St N
     let r := step env s op
     let rest := run env r.1 ops
     (rest.1, r.2 :: rest.2)
+
+/-- Concurrent callers.  Every call starts with `initAlignment.Do(initAlignmentFunc)`: `sync.Once` lets exactly one
+    caller run the initialisation and blocks every other caller until it has finished, and the package state is
+    written nowhere else after that (the table is loaded inside the initialisation), so with respect to that state
+    calls of different goroutines behave as if executed one at a time in some order.  `threads` holds the remaining
+    calls of each goroutine, `sched` names the goroutine whose next call happens next; the result list pairs every
+    executed call with its result (a goroutine id that has nothing left to do is skipped). -/
+def runSched {N : Type} [DecidableEq N] (env : Env N) : St N → List (List (Op N)) → List Nat → List (Op N × Res)
+  | _, _, [] => []
+  | s, threads, t :: sched =>
+    match threads[t]? with
+    | some (op :: rest) =>
+      let r := step env s op
+      (op, r.2) :: runSched env r.1 (threads.set t rest) sched
+    | _ => runSched env s threads sched
 
 /-- the result of `op` when it is called after the history `pre` in a fresh process -/
 def resAfter {N : Type} [DecidableEq N] (env : Env N) (pre : List (Op N)) (op : Op N) : Res :=
